@@ -472,11 +472,25 @@ func runC08PublicIPOverlap(c *fw.Ctx, id string) {
 	first := make(chan struct{})
 	go func() { defer close(first); f.GetIP(ctx1) }()
 	time.Sleep(50 * time.Millisecond)
-	ctx2, cancel2 := context.WithTimeout(context.Background(), 200*time.Millisecond)
-	defer cancel2()
-	t0 := time.Now()
-	_, err := f.GetIP(ctx2)
-	el := time.Since(t0)
+	// every further lookup runs in its own goroutine and is given up after 8 s: a lookup that never returns (a lock that
+	// is never released) is a verdict, not a frozen check
+	timed := func(d time.Duration) (time.Duration, error, bool) {
+		ctx, cancel := context.WithTimeout(context.Background(), d)
+		defer cancel()
+		type res struct {
+			el  time.Duration
+			err error
+		}
+		ch := make(chan res, 1)
+		go func() { t0 := time.Now(); _, err := f.GetIP(ctx); ch <- res{time.Since(t0), err} }()
+		select {
+		case r := <-ch:
+			return r.el, r.err, false
+		case <-time.After(8 * time.Second):
+			return 8 * time.Second, nil, true
+		}
+	}
+	el, err, hung := timed(200 * time.Millisecond)
 	cancel1()
 	select {
 	case <-first:
@@ -486,11 +500,20 @@ func runC08PublicIPOverlap(c *fw.Ctx, id string) {
 	}
 	c.Nontrivial("publicip-overlap-realtime")
 	c.Count("publicip_overlap_ms", int(el.Milliseconds()))
+	if hung {
+		c.Violate("C08", "publicip-lookup-hangs", fmt.Sprintf("%s: a public-IP lookup whose context ended after 200 ms had not returned after 8 s while another lookup through the same fetcher was stalled", id), nil)
+		return
+	}
 	if err == nil {
 		c.Violate("C08", "publicip-overlap-no-error", fmt.Sprintf("%s: a lookup against providers that never answer succeeded", id), nil)
 	}
 	if el > 1500*time.Millisecond {
 		c.Violate("C08", "publicip-overlap-queued", fmt.Sprintf("%s: a public-IP lookup whose context ended after 200 ms returned after %v of real time while another lookup through the same fetcher was stalled", id, el.Round(10*time.Millisecond)), nil)
+	}
+	// and back to back: both lookups above FAILED; the next one through the same fetcher is bounded like the first
+	el3, _, hung3 := timed(200 * time.Millisecond)
+	if hung3 || el3 > 1500*time.Millisecond {
+		c.Violate("C08", "publicip-lookup-after-failure", fmt.Sprintf("%s: after two failed lookups the next one through the same fetcher (context of 200 ms) took %v (gave up waiting: %v)", id, el3.Round(10*time.Millisecond), hung3), nil)
 	}
 }
 
